@@ -74,7 +74,16 @@ Definition ws_table_mismatch (id : Z) (impl_ranges : list (Z * Z)) : list Z :=
   if ranges_eqb impl_ranges ws_ranges then [] else [id].
 
 (** *** (ii) parser skeleton: accept / reject.  [claim] = the harness's own opinion whether all
-    tokens are in the skeleton's alphabet; [obs] = real parser returned Ok. *)
+    tokens are in the skeleton's alphabet; [obs] = real parser returned Ok.
+    [lim] = the nesting limit the harness detected on the implementation ([None] for the code as it
+    is now: deep ramps abort; [Some l] once a depth limit such as fixes/C23-depth-limit.patch is in
+    place: the deepest accepted parenthesis nesting is [l - 2]). *)
+Definition skel_accepts_lim (lim : option nat) (sts : list stok) : option bool :=
+  match skel_parse_lim lim sts with
+  | Some (POk _ _) => Some true
+  | Some (PErr _) => Some false
+  | None => None
+  end.
 Definition skel_case := (Z * list Z * bool * bool)%type.
 
 Definition skel_tokens (tbl : uni_table) (input : list Z) : option (list stok) :=
@@ -83,56 +92,56 @@ Definition skel_tokens (tbl : uni_table) (input : list Z) : option (list stok) :
   | _ => None
   end.
 
-Definition skel_agrees (tbl : uni_table) (c : skel_case) : bool :=
+Definition skel_agrees (lim : option nat) (tbl : uni_table) (c : skel_case) : bool :=
   let '(_, input, claim, obs) := c in
   match skel_tokens tbl input with
   | None => negb claim        (* lexer errors are covered by (i); never claimed in-alphabet *)
   | Some sts =>
       if in_alphabet sts then
-        claim && match skel_accepts sts with Some b => Bool.eqb b obs | None => false end
+        claim && match skel_accepts_lim lim sts with Some b => Bool.eqb b obs | None => false end
       else negb claim
   end.
 
-Definition skel_mismatches (tbl : uni_table) (cases : list skel_case) : list Z :=
-  flat_map (fun c => if skel_agrees tbl c then [] else [fst (fst (fst c))]) cases.
+Definition skel_mismatches (lim : option nat) (tbl : uni_table) (cases : list skel_case) : list Z :=
+  flat_map (fun c => if skel_agrees lim tbl c then [] else [fst (fst (fst c))]) cases.
 
 (** *** (iii) depth: two inputs of the same nesting construct with measured stack high-water marks
     (bytes).  The real stack must grow by a plausible number of bytes per additional model frame
     ([lo]..[hi] bytes per frame), i.e. model depth and native stack depth grow together. *)
 Definition depth_case := (Z * list Z * Z * list Z * Z)%type.
 
-Definition model_depth (tbl : uni_table) (input : list Z) : option Z :=
+Definition model_depth (lim : option nat) (tbl : uni_table) (input : list Z) : option Z :=
   match skel_tokens tbl input with
-  | Some sts => if in_alphabet sts then Some (Z.of_nat (skel_depth sts)) else None
+  | Some sts => if in_alphabet sts then Some (Z.of_nat (pres_depth (skel_parse_lim lim sts))) else None
   | None => None
   end.
 
-Definition depth_agrees (tbl : uni_table) (lo hi : Z) (c : depth_case) : bool :=
+Definition depth_agrees (lim : option nat) (tbl : uni_table) (lo hi : Z) (c : depth_case) : bool :=
   let '(_, in1, bytes1, in2, bytes2) := c in
-  match model_depth tbl in1, model_depth tbl in2 with
+  match model_depth lim tbl in1, model_depth lim tbl in2 with
   | Some d1, Some d2 =>
       (d1 <? d2) && (lo * (d2 - d1) <=? bytes2 - bytes1) && (bytes2 - bytes1 <=? hi * (d2 - d1))
   | _, _ => false
   end.
 
-Definition depth_mismatches (tbl : uni_table) (lo hi : Z) (cases : list depth_case) : list Z :=
-  flat_map (fun c => if depth_agrees tbl lo hi c then [] else [fst (fst (fst (fst c)))]) cases.
+Definition depth_mismatches (lim : option nat) (tbl : uni_table) (lo hi : Z) (cases : list depth_case) : list Z :=
+  flat_map (fun c => if depth_agrees lim tbl lo hi c then [] else [fst (fst (fst (fst c)))]) cases.
 
 (** *** (iv) stack overflows: an input on which the real parser died of stack exhaustion must be
     deep according to the model ([>= deep] frames), and an input that is shallow according to the
     model ([<= shallow]) must not have died. *)
 Definition abort_case := (Z * list Z * bool)%type.
 
-Definition abort_agrees (tbl : uni_table) (shallow deep : Z) (c : abort_case) : bool :=
+Definition abort_agrees (lim : option nat) (tbl : uni_table) (shallow deep : Z) (c : abort_case) : bool :=
   let '(_, input, aborted) := c in
-  match model_depth tbl input with
+  match model_depth lim tbl input with
   | Some d => if aborted then deep <=? d else true
   | None => false
   end &&
-  match model_depth tbl input with
+  match model_depth lim tbl input with
   | Some d => if d <=? shallow then negb aborted else true
   | None => false
   end.
 
-Definition abort_mismatches (tbl : uni_table) (shallow deep : Z) (cases : list abort_case) : list Z :=
-  flat_map (fun c => if abort_agrees tbl shallow deep c then [] else [fst (fst c)]) cases.
+Definition abort_mismatches (lim : option nat) (tbl : uni_table) (shallow deep : Z) (cases : list abort_case) : list Z :=
+  flat_map (fun c => if abort_agrees lim tbl shallow deep c then [] else [fst (fst c)]) cases.
